@@ -246,6 +246,81 @@ def run(seed):
             ok = False
         expect(f"TraceMux {name}", ok, False)
 
+    # ---- TraceEpochs
+    trace = os.path.join(d, "epochs.ndjson")
+    common.run_bin("epoch_drv", [trace, os.path.join(d, "epochs.json"), seed + 6, 160, 3, 3], timeout=600)
+    evs = _load(trace)
+    expect("TraceEpochs clean", c08._validate_epochs(trace)[0] is None, True)
+
+    def e_res(m):
+        o = [e for e in m if e["e"] == "offer" and e["res"] == "err" and e["kind"] == "final"]
+        if not o:
+            return False
+        o[len(o) // 2]["res"] = "ok"
+        return True
+
+    def e_exp(m):
+        t = [e for e in m if e["e"] in ("tick", "restart") and len(e["snap"]["sched"]) >= 2]
+        if not t:
+            return False
+        t[len(t) // 2]["snap"]["sched"][0]["exp"] += 1
+        return True
+
+    def e_next(m):
+        o = [e for e in m if e["e"] == "offer" and e["res"] == "ok" and e["snap"]["next"] == e["before"]["next"] + 1]
+        if not o:
+            return False
+        o[len(o) // 2]["snap"]["next"] -= 1
+        return True
+
+    for name, m in _generic(evs, [("refused block recorded as admitted", e_res), ("expiration shifted", e_exp), ("next number not advanced", e_next)]):
+        p = os.path.join(d, "epochs_mut.ndjson")
+        _save(p, m)
+        try:
+            ok = c08._validate_epochs(p)[0] is None
+        except common.ToolError:
+            ok = False
+        expect(f"TraceEpochs {name}", ok, False)
+
+    # ---- TraceRpcRate
+    trace = os.path.join(d, "rpc.ndjson")
+    common.run_bin("rpc_drv", [trace, os.path.join(d, "rpc.json"), seed + 8, 2, 10000000, "hammer", 40], timeout=600)
+    evs = _load(trace)
+    expect("TraceRpcRate clean", c15._validate_rpc(trace)[0] == "ok", True)
+
+    def r_squeeze(m):
+        st = [e for e in m if e["e"] == "start" and e["rpc"] == "consensus"]
+        if len(st) < 12:
+            return False
+        t0 = st[0]["t"]
+        for e in m:
+            if e["e"] in ("start", "end") and e["rpc"] == "consensus":
+                e["t"] = t0
+        return True
+
+    def r_inflight(m):
+        idx = [i for i, e in enumerate(m) if e["e"] == "end" and e["rpc"] == "ping"]
+        if len(idx) < 3:
+            return False
+        # move an `end` of ping after the next `start`: two pings in flight
+        i = idx[1]
+        j = next((k for k in range(i + 1, len(m)) if m[k]["e"] == "start" and m[k]["rpc"] == "ping"), None)
+        if j is None:
+            return False
+        e = m.pop(i)
+        e["t"] = m[j - 1]["t"]
+        m.insert(j, e)
+        return True
+
+    for name, m in _generic(evs, [("all consensus calls at one instant", r_squeeze), ("two pings in flight", r_inflight)]):
+        p = os.path.join(d, "rpc_mut.ndjson")
+        _save(p, m)
+        try:
+            ok = c15._validate_rpc(p)[0] == "ok"
+        except common.ToolError:
+            ok = False
+        expect(f"TraceRpcRate {name}", ok, False)
+
     with open(os.path.join(common.OUT, "selftest.json"), "w") as f:
         json.dump([{"case": a, "tlc": b, "verdict": c} for a, b, c in results], f, indent=1)
     log(f"[selftest] {len(results)} cases, {bad} unexpected")
